@@ -692,9 +692,9 @@ KIND = {1: "internal: the Python mirror of `print` differs from Model/Ast.v prin
 
 # ---------------------------------------------------------------- own Coq files
 def build_own_coq():
-    """compile this property's Coq files when their .vo is missing or older than a source it depends on (they join
+    """(re)compile this property's Coq files when their .vo is missing or older than a source it depends on (they join
     _CoqProject later; until then `make` does not know them)"""
-    deps = [os.path.join(common.COQ, p) for p in ("Model/VM.vo", "Model/Value.vo", "Model/Dice.vo", "Model/Str.vo")]
+    deps = [os.path.join(common.COQ, p) for p in ("Model/VM.vo", "Model/Value.vo", "Model/Dice.vo", "Model/Str.vo", "Model/Roll.vo", "Model/PCG.vo", "Corr/CorrK2.vo")]
     newest = max(os.path.getmtime(p) for p in deps if os.path.exists(p))
     with common.Lock("coqmake"):
         for f in MY_FILES:
@@ -740,7 +740,17 @@ def evaluate(cases, seeds_of, tag="c02", shard=200):
         rows_of[ci][j] = row
     terms = [case_term(c, sd, tx, rw) for c, sd, tx, rw in zip(cases, seeds_of, texts_of, rows_of)]
     ks = list(range(0, len(terms), shard))
-    outs = common.coq_eval_many([(f"{tag}_{k}", cases_v(terms[k:k + shard])) for k in ks], workers=12)
+    jobs = [(f"{tag}_{k}", cases_v(terms[k:k + shard])) for k in ks]
+    for attempt in range(3):
+        try:
+            outs = common.coq_eval_many(jobs, workers=12)
+            break
+        except Broken as b:
+            # a colleague's `make` rebuilt Model/VM.vo under our feet: recompile our own files and try again
+            if "inconsistent assumptions" not in (b.detail or "") or attempt == 2:
+                raise
+            time.sleep(5)
+            build_own_coq()
     verdicts = []
     for out in outs:
         verdicts += parse_res(out)
@@ -753,7 +763,7 @@ def run(res, tier, seed):
     common.build_harness()
     build_own_coq()
     r = random.Random(seed * 7919 + 2)
-    n = 900 if tier == "quick" else 12000
+    n = 700 if tier == "quick" else 12000
     nseeds = 3 if tier == "quick" else 4
     cases = gen_cases(r, n)
     seeds_of = [[r.randrange(1, 1 << 30) for _ in range(nseeds)] for _ in cases]
@@ -831,7 +841,13 @@ def run(res, tier, seed):
     res.cov["known_keys_not_yet_in_known_findings_json"] = unregistered
 
     # ---- proofs
-    info = common.check_property_file(PID)
+    try:
+        info = common.check_property_file(PID)
+    except Broken as b:
+        if "inconsistent assumptions" not in (b.detail or ""):
+            raise
+        build_own_coq()
+        info = common.check_property_file(PID)
     res.proof(info, "cd coq && make && coqc -Q . DS Properties/C02.v")
     res.assumptions += [
         "C02_compile_correct_partial covers the constructors listed in Properties/C02.v; the full statement is kept as "
@@ -840,6 +856,8 @@ def run(res, tier, seed):
 
     # ---- report disagreements
     if failures:
+        # the shortest histories make the most useful replays
+        failures.sort(key=lambda f: (sum(len(t) for t in texts_of[f[0]][f[1]]), f))
         sel = failures[:5]
         outs = common.coq_eval("c02_explain", explain_v([terms[ci] for ci, _, _, _ in sel]))
         expl = parse_explain(outs)
